@@ -9,6 +9,34 @@ hook_commits = [l.split()[0] for l in HOOK_COMMITS if "verif" in l.lower() and n
 
 # id -> (engine, technique, level text, level note, design ref)
 CHECKS = {
+    "C03": (
+        "E3",
+        "exhaustive sweep: every accepted unit identifier, every ordered unit pair under * / (+ -), every expression tree to depth 2-3 over a collision alphabet, against a reference evaluator built from the units' direct definitions",
+        "L1 every (alias x prefix x spelling) identifier; L2 every ordered pair of all standard-library units under * and / and same-dimension pairs under + and -; L3 every well-dimensioned expression tree of bounded depth over a collision alphabet of units, prefixes, magnitudes and powers: each is evaluated by the interpreter, the raw result is converted to base units by the implementation and compared (value and dimension) with exact dimensional arithmetic computed by an independent reference from the units' direct definitions.",
+        "Trusted: UnitDefs (direct definitions read from VM constants; own recursion, prefix table and power function); magnitudes from a fixed alphabet; tolerance 1e-9.",
+        "§4 C03",
+    ),
+    "C04": (
+        "E3",
+        "exhaustive sweep over all ordered same-dimension unit pairs x magnitudes, chained conversions through every intermediate, targets with magnitudes, and all ordered pairs of compound unit terms per dimension",
+        "Every ordered pair of same-dimension units x magnitude alphabet, conversions to a multiple of a unit, chained conversions (through a target with a magnitude and through intermediate units), and every ordered pair of same-dimension compound unit terms over the collision alphabet: the result must carry exactly the requested unit (factor list and display form), denote the same base-unit quantity as the source (reference), and convert back to the source magnitude.",
+        "Trusted: UnitDefs reference; display coefficients compared at the 6 displayed digits; compound groups above a cap use an evenly spread subset.",
+        "§4 C04",
+    ),
+    "C05": (
+        "E3",
+        "exhaustive sweep over all unit-pair products/quotients, all prefixed named-unit pairs over a prefix alphabet, all <=3-factor terms with powers; raw value (hook) vs displayed / printed / interpolated value",
+        "For every product and quotient of two standard-library units, every product/quotient of prefixed named SI units over {none,nano,milli,kilo,giga}, every <=3-factor term with powers over the collision alphabet and a set of explicit conversions: the raw value bound to a variable is compared with the value displayed as a result (dimension, base-unit magnitude, conversion back to the raw unit) and, on a fixed subset, with the print and string-interpolation texts read back as input; explicit conversions must be displayed in exactly the requested unit on all three paths.",
+        "Trusted: UnitDefs reference; fixed magnitudes; texts compared at 6 significant digits.",
+        "§4 C05",
+    ),
+    "C21": (
+        "E3",
+        "exhaustive product of a value alphabet (units x magnitudes incl. NaN, 0, 1-ulp neighbours) squared x tolerance alphabet, each assertion embedded between marker statements; predicate recomputed by the harness",
+        "assert / assert_eq(a,b) / assert_eq(a,b,eps) over the full product of a value alphabet (3 dimensions x 3 units x 9 magnitudes) and a tolerance alphabet (incl. 0, negative, NaN, inf), plus booleans, strings and lists: the assertion must pass iff the documented predicate (computed by the harness from separately evaluated conversions) holds, report the matching error kind otherwise, and no statement after a failing assertion may run.",
+        "Trusted: conversions a -> unit are taken from the interpreter (C04's subject); comparison arithmetic is the harness's; alphabet-bounded.",
+        "§4 C21",
+    ),
     "C14": (
         "E3",
         "exhaustive sweep of all k-digit decimals over an exponent range, integer windows, all binary exponents x structured mantissas, x a grid of format settings through the real formatter; displayed text judged against exact decimal rounding",
